@@ -215,10 +215,56 @@ THEORY["seq_toreal_def"] = z3.ForAll([_sa, _sj], SEQ_TOREAL(_sa)[_sj] == z3.ToRe
 EXTRA = {}    # name -> axiom, registered by contract modules (assumed properties of uncontracted code; listed as trusted)
 
 
-def all_axioms():
+def decl_names(exprs, _cache={}):
+    """Names of the uninterpreted function symbols occurring in the given z3 expressions."""
+    out, seen, todo = set(), set(), list(exprs)
+    while todo:
+        t = todo.pop()
+        i = t.get_id()
+        if i in seen:
+            continue
+        seen.add(i)
+        if z3.is_quantifier(t):
+            todo.append(t.body())
+            for k in range(t.num_patterns()):
+                todo.append(t.pattern(k))
+        elif z3.is_app(t):
+            if t.decl().kind() == z3.Z3_OP_UNINTERPRETED and t.num_args() > 0:
+                out.add(t.decl().name())
+            todo.extend(t.children())
+    return out
+
+
+_extra_syms = {}
+
+
+def extra_for(exprs):
+    """The contract-module axioms (EXTRA) relevant to a query: those that share one of *their own* symbols (symbols no core axiom mentions,
+    e.g. COMP, closed, bsum_d, hist) with the query, closed under that relation.  An axiom about symbols that do not occur in the query cannot
+    contribute to its proof (the EXTRA axioms are definitions of, or lemmas about, exactly those symbols), and leaving it out keeps the
+    instantiation space - and with it the verdict on an unprovable goal - independent of what other contract modules register."""
+    core = _extra_syms.get("__core__")
+    if core is None:
+        core = _extra_syms["__core__"] = decl_names(THEORY.values())
+    for n, a in EXTRA.items():
+        if n not in _extra_syms:
+            _extra_syms[n] = decl_names([a]) - core
+    have = decl_names(exprs)
+    chosen, changed = {}, True
+    while changed:
+        changed = False
+        for n, a in EXTRA.items():
+            if n not in chosen and _extra_syms[n] & have:
+                chosen[n] = a
+                have |= _extra_syms[n]
+                changed = True
+    return chosen
+
+
+def all_axioms(scope=None):
     from . import ty as T
     out = dict(THEORY)
-    out.update(EXTRA)
+    out.update(EXTRA if scope is None else extra_for(scope))
     for e in list(T.ELEM_TYPES.values()):
         out.update(collection_axioms(e))
     return out
